@@ -16,7 +16,7 @@ import (
 
 func checkOrder(l lm.List) (lm.List, string, string) {
 	exp := refops.Order(l)
-	r := lm.Build(l, nil, nil)
+	r := lm.Build(l, []string{"a"}, []string{"r"})
 	r.Subs.Order()
 	got := r.Extract()
 	if !lm.Equal(got, exp) {
@@ -314,7 +314,7 @@ func c12Run(c *core.Ctx) {
 		if !c.Mine() {
 			return true
 		}
-		l := l0.Scale(ms)
+		l := decorate(l0.Scale(ms))
 		exp, key, msg := checkOrder(l)
 		c.Transitions++
 		c.Traces++
